@@ -42,7 +42,7 @@ type Step struct {
 
 // Case describes the step in a replayable form.
 func (s *Step) Case() map[string]any {
-	return map[string]any{"initial": s.Init.Name, "history": opsStrings(s.Hist), "op": s.Op.String(), "history_ops": s.Hist, "op_spec": s.Op}
+	return map[string]any{"initial": s.Init.Name, "history": opsStrings(s.Hist), "op": s.Op.String(), "history_ops": s.Hist, "op_spec": s.Op, "probe": s.Probe}
 }
 
 func opsStrings(ops []Op) []string {
